@@ -1,7 +1,9 @@
 import PoseVerif.Props.C01
 import PoseVerif.Proofs.Trunc
+import PoseVerif.Proofs.StreamRev
+import PoseVerif.Proofs.Window3
 /-!
-# C07 — a truncated file is never mistaken for a valid pose (full reads; the windowed stream clause is in `C07Stream`)
+# C07 — a truncated file is never mistaken for a valid pose (full reads from bytes and streams; windowed stream reads of a prefix)
 -/
 namespace PoseVerif.Props.C07
 open PoseVerif
@@ -28,5 +30,42 @@ theorem trailing_ignored_any (f extra : Bytes) (p : Pose) (hr : readFull f = som
 
 /-! non-vacuity: every proper prefix of the sample file (79 bytes) is rejected — also directly by evaluation -/
 example : ∀ n ∈ List.range 79, (C01.samplePose.write?.bind fun b => readFull (b.take n)) = none := by decide +kernel
+
+/-! ### the windowed stream clause -/
+
+/-- **A windowed stream read of a proper prefix either raises or returns exactly what the intact file returns for that window** (cold cache):
+    whenever `Pose.read(BytesIO(prefix), window)` returns, its result is the one a read of the complete bytes with the same window returns. -/
+theorem truncated_window_stream (b : Bytes) (n : Nat) (w : Window) (q q' : Pose) (c c' : Option CacheEntry) (s : SR)
+    (hs : readStream (b.take n) none w = some ((q, c), s)) (hb : readBytes b none w = some (q', c'))
+    (hv : versionClass q'.header.version = .v02) : q = q' ∧ c = c' := by
+  have hb' : readBytes (b.take n ++ b.drop n) none w = some (q', c') := by rw [List.take_append_drop]; exact hb
+  exact prefix_stream_agrees (b.take n) (b.drop n) w q q' c c' s hs hb' hv
+
+/-- … in particular, for a valid window of a file that a full read accepts as v0.2, a prefix read that returns returns the slice `[start, start + count)` of the full pose -/
+theorem truncated_window_stream_slice (file : Bytes) (n : Nat) (w : Window) (p : Pose) (fps : F32) (se : Option Int × Option Int)
+    (hfull : readFull file = some p) (hv02 : versionClass p.header.version = .v02) (hfps : p.body.fps = .f32 fps)
+    (hc : w.conflict = false) (hres : w.resolve fps = some se) (hvw : WinValid p.body.frames se.1 se.2)
+    (q : Pose) (c : Option CacheEntry) (s : SR) (hs : readStream (file.take n) none w = some ((q, c), s)) :
+    q = ⟨p.header, p.body.slice (winStart se.1) (winCount p.body.frames se.1 se.2)⟩ := by
+  obtain ⟨c', hb⟩ := readBytes_window file w p fps se hfull hv02 hfps hc hres hvw
+  exact (truncated_window_stream file n w q _ c c' s hs hb hv02).1
+
+/-- a stream without window bounds is read into a `BufferReader` first: every proper prefix of a written file is rejected through that route as well -/
+theorem truncated_rejected_stream_full (p : Pose) (hf : p.body.Fits p.header) (b : Bytes) (h : p.write? = some b) (n : Nat) (hn : n < b.length) :
+    (readSource (b.take n) none {}).map (·.1) = none := by
+  have := truncated_rejected p hf b h n hn
+  simp only [readFull, Option.map_eq_none_iff] at this
+  simp [readSource, Window.given, readBytes, this]
+
+/-! non-vacuity of the stream clause: a two-frame file, window [0, 1) — a prefix that lacks the last 5 bytes still serves the window, identically; one that lacks 30 raises -/
+def twoFrames : Pose :=
+  { header := { version := 0, width := 6, height := 4, depth := 0,
+                comps := [{ name := "c", format := "XYC", points := ["a", "b"], limbs := [(0, 1)], colors := [(1, 2, 3)] }] },
+    body := { fps := .f32 0x41C80000, frames := 2, people := 1, points := 2, dims := 2,
+              data := [1, 2, 3, 4, 5, 6, 7, 8], conf := [0x3F800000, 0, 0x3F800000, 0x3F800000], missing := [] } }
+def win01 : Window := { startFrame := some 0, endFrame := some 1 }
+example : (twoFrames.write?.bind fun b => (readStream (b.take (b.length - 5)) none win01).map (·.1.1)) =
+    (twoFrames.write?.bind fun b => (readBytes b none win01).map (·.1)) := by decide +kernel
+example : (twoFrames.write?.bind fun b => (readStream (b.take (b.length - 30)) none win01).map (·.1.1)) = none := by decide +kernel
 
 end PoseVerif.Props.C07
